@@ -1,5 +1,6 @@
 // C05 — per-node sequence numbers are consecutive in wire order under any interleaving.
 #include "common.h"
+#include "cfggen.h"
 
 namespace {
 
@@ -17,8 +18,14 @@ struct C05 : Prop {
 		auto tree = pc::gen_tree(r, (int) r.range(1, 4));
 		J bus = J::obj(); bus.set("nodes", pc::tree_json(tree)); bus.set("resp_delay_us", (int) r.range(100, 4000));
 		plan.set("bus", bus);
-		J se = pc::debug_session(r.chance(600) ? 0 : (int) r.range(1, 30));
+		// normal mode (configuration without equipment): connection probing with numbering off, SYS_RESET restarts the numbering
+		bool normal = r.chance(300);
+		if (normal) cfg::install(plan, cfg::bare_world(tree), r);
+		plan.set("normal", normal);
+		int flush_ms = r.chance(600) ? 0 : (int) r.range(1, 30);
+		J se = normal ? cfg::normal_session(0, flush_ms) : pc::debug_session(flush_ms);
 		J phs = J::arr();
+		if (normal) { J ph = J::obj(); J post = J::arr(); post.push("quiesce"); ph.set("post", post); phs.push(ph); }
 		std::vector<size_t> zero_budget;
 		for (size_t i = 0; i < cat::table_n; i++) if (pc::resp_info(cat::table[i].type).size == 0 && !cat::table[i].to_interface_only) zero_budget.push_back(i);
 		const std::vector<uint8_t> &hot = tree[r.below(tree.size())].addr;
@@ -32,7 +39,7 @@ struct C05 : Prop {
 			J post = J::arr(); post.push("quiesce"); ph.set("post", post);
 			phs.push(ph);
 		}
-		int nph = (int) r.range(1, 2), maxt = 2;
+		int nph = (int) r.range(normal ? 2 : 1, 2), maxt = 2;
 		for (int p = 0; p < nph; p++) {
 			J ph = J::obj();
 			int nt = (int) r.range(2, thorough ? 16 : 8);
@@ -51,56 +58,62 @@ struct C05 : Prop {
 				tasks.push(ops);
 			}
 			ph.set("tasks", tasks);
+			// a system reset between two concurrent phases (sequential: the property says nothing about senders racing the reset)
+			if (normal && p > 0 && r.chance(600)) { J pre = J::arr(); J ro = J::obj(); ro.set("op", "reset"); pre.push(ro); ph.set("pre", pre); }
 			J post = J::arr(); post.push("quiesce"); ph.set("post", post);
 			phs.push(ph);
 		}
 		se.set("phases", phs);
 		J ss = J::arr(); ss.push(se); plan.set("sessions", ss);
-		plan.set("sched", sched_json(r, tier, maxt, true));
+		J sc = sched_json(r, tier, maxt, true);
+		if (normal) cfg::starve_after_startup(sc, r);
+		plan.set("sched", sc);
 		return plan;
 	}
 
-	std::map<uint32_t, std::vector<size_t>> per_node;   // wire indices per destination
-	size_t checked = 0;
 	bool overlap_same_node = false;
-	uint64_t wraps = 0;
+	uint64_t wraps = 0, resets_seen = 0, probing_zero = 0;
 
-	void attach(Engine &e) override {
-		per_node.clear(); checked = 0; overlap_same_node = false; wraps = 0;
-		(void) e;
-	}
+	void attach(Engine &e) override { overlap_same_node = false; wraps = resets_seen = probing_zero = 0; (void) e; }
 
 	static uint8_t nxt(uint8_t s) { return s == 255 ? 1 : (uint8_t) (s + 1); }
 
+	// One pass over the whole wire in transmission order. Numbering per destination starts at 1; number 0 is legitimate only for the
+	// probe messages of a normal-mode start (SYS_DISABLE, SYS_GET_MAGIC to the interface, before the first numbered message); a
+	// SYS_RESET on the wire restarts every node's numbering.
 	void at_quiescence(Engine &e, int, int) override {
-		for (; checked < e.bus.wire.size(); checked++) per_node[e.bus.wire[checked].msg.addr_key()].push_back(checked);
-		for (auto &kv : per_node) {
-			uint8_t exp = 1;
-			const std::vector<size_t> &ix = kv.second;
-			for (size_t k = 0; k < ix.size(); k++) {
-				const bus::WireRec &w = e.bus.wire[ix[k]];
-				if (w.msg.seq == 255) wraps++;
-				if (w.msg.seq != exp) {
-					// classify: is the set of numbers right and only the order wrong?
-					std::vector<int> got, want;
-					uint8_t x = 1;
-					for (size_t q = 0; q < ix.size(); q++) { got.push_back(e.bus.wire[ix[q]].msg.seq); want.push_back(x); x = nxt(x); }
-					std::vector<int> gs = got, ws = want;
-					std::sort(gs.begin(), gs.end()); std::sort(ws.begin(), ws.end());
-					char d[400];
-					snprintf(d, sizeof d, "node %s: wire position %zu carries sequence number %u, expected %u (message type 0x%02x, written by task %d at step %llu)",
-					         w.msg.addr_str().c_str(), k, w.msg.seq, exp, w.msg.type, w.task, (unsigned long long) w.step);
-					(void) ws;
-					bool zero = false, dupl = false, increasing = true;
-					for (size_t q = 0; q < got.size(); q++) { if (got[q] == 0) zero = true; if (q && got[q] <= got[q - 1] && !(got[q - 1] > 200 && got[q] < 50)) increasing = false; }
-					for (size_t q = 1; q < gs.size(); q++) if (gs[q] == gs[q - 1] && ix.size() < 255) dupl = true;
-					if (zero) e.violate("SEQ_ZERO", "number 0 while numbering is enabled", d);
-					if (dupl) e.violate("SEQ_DUPLICATE", "same number used twice", d);
-					if (!increasing) e.violate("SEQ_OUT_OF_ORDER", "numbers allocated in one order, buffered in another", d);
-					e.violate("SEQ_GAP", k > 250 ? "around wrap" : "value", d);
-				}
-				exp = nxt(exp);
+		bool normal = e.plan.getb("normal");
+		std::map<uint32_t, uint8_t> exp;
+		std::map<uint32_t, std::vector<int>> got;      // numbers per node since the last reset (diagnosis)
+		bool probing = normal;
+		wraps = resets_seen = probing_zero = 0;
+		for (size_t i = 0; i < e.bus.wire.size(); i++) {
+			const bus::WireRec &w = e.bus.wire[i];
+			uint32_t key = w.msg.addr_key();
+			if (probing) {
+				if (w.msg.seq == 0 && w.msg.addr.empty() && (w.msg.type == MSG_SYS_DISABLE || w.msg.type == MSG_SYS_GET_MAGIC)) { probing_zero++; continue; }
+				probing = false;
 			}
+			uint8_t want = exp.count(key) ? exp[key] : 1;
+			auto &g = got[key]; g.push_back(w.msg.seq);
+			if (w.msg.seq == 255) wraps++;
+			if (w.msg.seq != want) {
+				char d[400];
+				snprintf(d, sizeof d, "node %s: message #%zu to it since the last reset carries sequence number %u, expected %u (message type 0x%02x, written by task %d at step %llu)",
+				         w.msg.addr_str().c_str(), g.size() - 1, w.msg.seq, want, w.msg.type, w.task, (unsigned long long) w.step);
+				// look ahead to the end of this numbering epoch to classify
+				for (size_t j = i + 1; j < e.bus.wire.size(); j++) { const bus::WireRec &x = e.bus.wire[j]; if (x.msg.type == MSG_SYS_RESET && x.msg.addr.empty()) break; if (x.msg.addr_key() == key) g.push_back(x.msg.seq); }
+				bool zero = false, dupl = false, increasing = true;
+				for (size_t q = 0; q < g.size(); q++) { if (g[q] == 0) zero = true; if (q && g[q] <= g[q - 1] && !(g[q - 1] > 200 && g[q] < 50)) increasing = false; }
+				std::vector<int> gs = g; std::sort(gs.begin(), gs.end());
+				for (size_t q = 1; q < gs.size(); q++) if (gs[q] == gs[q - 1] && g.size() < 255) dupl = true;
+				if (zero) e.violate("SEQ_ZERO", "number 0 while numbering is enabled", d);
+				if (dupl) e.violate("SEQ_DUPLICATE", "same number used twice", d);
+				if (!increasing) e.violate("SEQ_OUT_OF_ORDER", "numbers allocated in one order, buffered in another", d);
+				e.violate("SEQ_GAP", g.size() > 250 ? "around wrap" : "value", d);
+			}
+			exp[key] = nxt(want);
+			if (w.msg.type == MSG_SYS_RESET && w.msg.addr.empty()) { exp.clear(); got.clear(); resets_seen++; }
 		}
 	}
 
@@ -119,7 +132,7 @@ struct C05 : Prop {
 		}
 		f.set("nontrivial", ov);
 		f.set("shape", (long long) (pc::shape_hash(e.plan) >> 1));
-		J p = J::obj(); p.set("wrap_255_seen", (long long) wraps); p.set("overlapping_same_node_runs", ov ? 1 : 0);
+		J p = J::obj(); p.set("wrap_255_seen", (long long) wraps); p.set("sys_resets_on_wire", (long long) resets_seen); p.set("probe_messages_numbered_0", (long long) probing_zero); p.set("overlapping_same_node_runs", ov ? 1 : 0);
 		f.set("probes", p);
 	}
 };
